@@ -456,6 +456,10 @@ def sentence_field_cases(rng, tier):
             add(gen.sentence(pay, fill, start=start, tag=tag), 0)
     for tail in (b'', b'\r', b'\r\n', b'0', b'00', b'zz', b' ', b'G', b'000000', b'\xff'):
         add(gen.sentence(pay, fill, tail=tail), 0)
+    # realistic TAG blocks (group / source / time parameters) in front of every numbering shape
+    for _ in range(40):
+        for (n, k, sid) in ((1, 1, None), (1, 1, 4), (2, 1, None), (2, 1, 3), (3, 1, None), (9, 1, 0), (0, 1, None), (2, 2, None)):
+            add(gen.sentence(pay, fill, n, k, sid, tag=gen.tag_block(rng, k, n)), 0)
     # spellings of the checksum field: runs of up to and beyond eight hex digits (only the first eight are read)
     for pl in (pay, b'15M', pay[:7] + b'w'):
         base = gen.sentence(pl, fill)
